@@ -179,6 +179,14 @@ def handle (args : List String) : String :=
           else if kind == "exp" then specExpansionStatus specFuel env e
           else specLetStatus specFuel env [e]
         toString st ++ " ; " ++ showEnv env' names
+      | some (e, ex2) =>
+        match decodeExpr (ex2.length + 1) ex2 with
+        | some (e2, []) =>
+          if kind == "let2" then
+            let (st, env') := specLetStatus specFuel env [e, e2]
+            toString st ++ " ; " ++ showEnv env' names
+          else "bad-op"
+        | _ => "bad-op"
       | _ => "bad-op"
     | none => "bad-op"
   | "status" :: kind :: rest =>
@@ -191,6 +199,14 @@ def handle (args : List String) : String :=
           else if kind == "exp" then expansionStatus env e
           else letStatus env [e]
         toString st ++ " ; " ++ showEnv env' names
+      | some (e, ex2) =>
+        match decodeExpr (ex2.length + 1) ex2 with
+        | some (e2, []) =>
+          if kind == "let2" then
+            let (st, env') := letStatus env [e, e2]
+            toString st ++ " ; " ++ showEnv env' names
+          else "bad-op"
+        | _ => "bad-op"
       | _ => "bad-op"
     | none => "bad-op"
   | "parse" :: toks =>
